@@ -348,8 +348,13 @@ func buildExpressionEx(input map[string]interface{}, depth int) (string, bool, e
 
 				return strconv.Quote(valueType), true, nil
 			case float64:
+				numStr := strconv.FormatFloat(valueType, 'f', -1, 64)
+				if _, intErr := strconv.ParseInt(numStr, 10, 64); intErr != nil && !strings.Contains(numStr, ".") {
+					// an integral value beyond the int64 range is not a GRL integer literal, keep it a real
+					numStr += ".0"
+				}
 
-				return strconv.FormatFloat(valueType, 'f', -1, 64), true, nil
+				return numStr, true, nil
 			case bool:
 				if valueType {
 
